@@ -222,6 +222,10 @@ def run(R):
                 R.cert(okc)
                 if not okc:
                     R.failA(dict(pub, source=j, end="max" if up else "min"), "no dual certificate proves the model's %s of source %d extremal" % ("max" if up else "min", j))
+        if st == "value_error" and boundary and "outside the convex" in str(out):
+            # a target ON the boundary: the gamut gate (C03: only strictly inside / strictly outside are decided) may reject it
+            R.count("boundary-rejected-by-gate")
+            continue
         if st == "value_error" and S["decimal"] and boundary:
             # a boundary target rounded to floating point may lie 1 ulp outside the gamut: rejecting it is legitimate
             R.count("decimal-boundary-rejected-by-gate")
